@@ -674,6 +674,8 @@ _ = itertools
 
 def build(ctx):
     drv = ctx.build_driver("arith_driver")
+    if not ensure_coq(ctx, MODEL_FILES):
+        return drv, None
     model = ctx.build_model("Arith", "C03/Extract.v", "arith_main.ml", "semodel", extra_ml=["expr_io.ml"])
     return drv, model
 
@@ -731,3 +733,37 @@ def correspondence_phase(ctx, pid, drv, model, recipes, stats, search=False):
                 ctx.cov["samples"].append({"recipe": r, "last_call": call_text(cs[-1])[:200], "result": (cs[-1].res or "")[:200],
                                            "model": (mo.get(cs[-1].key) or "")[:200]})
     return calls
+
+
+# ----------------------------------------------------------------------------- Coq files of this family
+# Until they are listed in coq/_CoqProject the files are compiled here, in dependency order, whenever a .vo is
+# missing or older than its source or than a library it depends on (Num/NumModel.vo is rebuilt by other checks).
+import os
+import vlib as _vlib
+
+MODEL_FILES = ["Expr/Arith.v", "Expr/Canon.v"]
+PROOF_FILES = []
+EXTERNAL_DEPS = ["Num/NumModel.vo", "Expr/Cmp.vo", "Expr/Wf.vo", "Num/NumC05.vo"]
+
+
+def ensure_coq(ctx, files):
+    with _vlib.Lock(os.path.join(_vlib.WORK, "coq.lock")):
+        newest = 0.0
+        for d in EXTERNAL_DEPS:
+            p = os.path.join(_vlib.COQ, d)
+            if os.path.exists(p):
+                newest = max(newest, os.path.getmtime(p))
+        for f in files:
+            src = os.path.join(_vlib.COQ, f)
+            vo = src[:-2] + ".vo"
+            if not os.path.exists(src):
+                continue
+            stale = (not os.path.exists(vo)) or os.path.getmtime(vo) < os.path.getmtime(src) or os.path.getmtime(vo) < newest
+            if stale:
+                rc, out = _vlib.sh(["timeout", "1800", "coqc", "-Q", ".", "SE", "-w", "-notation-overridden", f], cwd=_vlib.COQ, timeout=1830)
+                if rc != 0:
+                    kind = "correspondence" if f in MODEL_FILES else "proof"
+                    ctx.broken.append({"kind": kind, "name": f, "detail": out[-2500:]})
+                    return False
+            newest = max(newest, os.path.getmtime(vo))
+    return True
